@@ -4,6 +4,7 @@ import (
 	"fmt"
 	"runtime/debug"
 	"strings"
+	"verif/mc/proto"
 )
 
 // catch runs f and returns a description of the panic it raised, if any.
@@ -36,4 +37,10 @@ func shortStack() string {
 		}
 	}
 	return strings.Join(out, " <- ")
+}
+
+// raceViolation builds a violation that is confirmed by re-sampling (a data
+// race report is sound by itself; it need not recur on every run).
+func raceViolation(key, detail string) proto.Violation {
+	return proto.Violation{Key: key, Detail: detail, Replay: []byte(`{"race_pass":true}`), Sampled: true}
 }
